@@ -17,6 +17,13 @@ for m in sorted(glob.glob(os.path.join(ROOT, "seeded", "C*", "*", "meta.json")))
                                                   c.get("check_result", "not confirmed yet"),
                                                   (short(" ".join(str(c.get("caught_by", "")).split()), 260) +
                                                    (" — history: " + short(" ".join(c["history"].split()), 260) if c.get("history") else "")).replace("|", "/")))
-print("| seed | change | needs, in order to manifest | check | caught by |")
-print("|---|---|---|---|---|")
-print("\n".join(rows))
+table = "| seed | change | needs, in order to manifest | check | caught by |\n|---|---|---|---|---|\n" + "\n".join(rows)
+import sys
+if len(sys.argv) > 1 and sys.argv[1] == "--write":
+    dp = os.path.join(ROOT, "DESIGN.md")
+    s = open(dp).read()
+    a, b = s.index("<!-- SEEDS-BEGIN -->") + len("<!-- SEEDS-BEGIN -->"), s.index("<!-- SEEDS-END -->")
+    open(dp, "w").write(s[:a] + "\n" + table + "\n" + s[b:])
+    print("DESIGN.md updated: %d seeds" % len(rows))
+else:
+    print(table)
